@@ -74,6 +74,26 @@ def long_lived_instances(model: SrcModel) -> Set[str]:
     return out
 
 
+def builds_objects(model: SrcModel, mod, v: Optional[ast.AST]) -> bool:
+    """A module-level container (literal or comprehension) whose elements are model objects created by constructor calls or by
+    repo factory functions annotated to return such a class."""
+    if not isinstance(v, (ast.Dict, ast.List, ast.Tuple, ast.DictComp, ast.ListComp, ast.SetComp, ast.Call)):
+        return False
+
+    def mutable_class(c) -> bool:
+        return isinstance(c, ClassDef) and not (model.is_enum(c) or "typing.NamedTuple" in model.mro(c.qualname)
+                                                 or any("frozen=True" in norm(d) for d in c.node.decorator_list))
+
+    for x in ast.walk(v):
+        if isinstance(x, ast.Call) and isinstance(x.func, (ast.Name, ast.Attribute)):
+            res = model.resolve_expr(mod, x.func)
+            if mutable_class(res):
+                return True
+            if isinstance(res, FuncDef) and res.node.returns is not None and mutable_class(model._annotation_class(res.module, res.node.returns)):  # pylint:disable=protected-access
+                return True
+    return False
+
+
 def holds_mutable_objects(model: SrcModel, mod, v: Optional[ast.AST]) -> bool:
     """Does the expression build lark Trees / model objects / nested containers (something a caller could edit in place)?"""
     if v is None:
@@ -302,7 +322,7 @@ def hidden_state_sites(model: SrcModel, fn: FuncDef) -> List[Tuple[str, ast.AST,
             root = _root_name(target)
             if is_module_var(root):
                 v = mutables.get(root)
-                holds_objects = isinstance(v, (ast.Dict, ast.List, ast.Tuple)) and any(
+                holds_objects = builds_objects(model, mod, v) or isinstance(v, (ast.Dict, ast.List, ast.Tuple)) and any(
                     isinstance(x, ast.Call) and not isinstance(model.resolve_expr(mod, x.func), FuncDef) and (dotted(x.func) or "").split(".")[-1][:1].isupper()
                     and not (isinstance(model.resolve_expr(mod, x.func), ClassDef) and (
                         model.is_enum(model.resolve_expr(mod, x.func)) or "typing.NamedTuple" in model.mro(model.resolve_expr(mod, x.func).qualname)))
